@@ -731,8 +731,7 @@ theorem lock_scopes_inner :
     Gen.FactsC16Locks.sessMgrGetRegions =
       [("", ["SessionManager.newSessionFromYaml", "storage.get", "sync.Map.Load", "sync.Map.Store"])] ∧
     Gen.FactsC16Locks.sessMgrDelLocalRegions = [("", ["Session.close", "sync.Map.LoadAndDelete"])] ∧
-    -- (round 2: `delDB` of fixes/C16-own-delete-event.patch — look-up, announcement, delete; order: `own_delete_facts`)
-    Gen.FactsC16Locks.sessMgrDelDBRegions = [("", ["SessionManager.addOwnDelete", "storage.delete", "storage.get"])] ∧
+    Gen.FactsC16Locks.sessMgrDelDBRegions = [("", ["storage.delete"])] ∧
     Gen.FactsC16Locks.sessMgrNewSessionFromConnRegions = [("", ["sync.Map.Store"])] ∧
     evBefore Gen.FactsC16Locks.sessMgrDoStoreEvents ("", "SessionManager.storeCh.recv") ("", "storage.put") = true ∧
     Gen.FactsC16Locks.topicMgrSubscribeRegions = [("TopicManager", ["TopicManager.getLevels", "TopicManager.insert"])] ∧
@@ -825,11 +824,19 @@ example :
       [.subscribe [(7, 0)], .subscribe [(7, 1), (9, 0)], .unsubscribe [9], .reconnect]
     s.live = [(7, 1)] ∧ s.db = [(7, 1)] ∧ s.tm = [(7, 1)] := by decide
 
-/-! ### Extension mqtt round 2: origin of delete events -/
+/-! ### Extension mqtt round 2: origin of delete events
 
-/-- states of the model with origins reachable from the empty broker; `fixed = true`: with
-`fixes/C16-own-delete-event.patch`, `fixed = false`: the code before it (the takeover-teardown patch is
-in either way) -/
+`OSt` / `ostep` (end of `Model/BrokerSessions.lean`) add to the coarse model the ORIGIN of every queued delete
+event of the session store: the teardown of a connection (`delDB` of a clean session) or the admin endpoint.
+`ostep false` is the CURRENT code (every delivered event runs `deleteSession`; this is what the judge
+replays); `ostep true` is the PROPOSED repair `fixes/C16-own-delete-event.patch`, which is NOT applied to
+/repo — the theorems about it are labelled "proposed repair" and say what the patch would and would not
+achieve. The clause of C16 "the teardown of the superseded connection, whenever it happens, never removes the
+new connection's … registration" FAILS on the current code: `stale_teardown_event_disconnects_new_connection`
+(known finding `C16-own-delete-event`). -/
+
+/-- states of the model with origins reachable from the empty broker; `fixed = false`: the current code,
+`fixed = true`: with the proposed repair (the takeover-teardown patch is in either way) -/
 inductive OReach (fixed : Bool) : OSt → Prop
   | init : OReach fixed oinit
   | step {s s' : OSt} (a : Act) : OReach fixed s → ostep fixed s a = some s' → OReach fixed s'
@@ -839,12 +846,12 @@ theorem oreach_inv {fixed : Bool} {s : OSt} (r : OReach fixed s) : OInv fixed s 
   | init => exact oinv_init fixed
   | step a _ hs ih => exact oinv_step ih hs
 
-/-- **origin_queue_sound.** In every reachable state of either code: the ghost queue lists exactly
-the events in flight; the broker expects at most as many echoes as teardown-origin events are
-queued; the connection whose teardown emitted a queued event has ended (it is past its read loop or
-disconnected); and the base state still satisfies the invariant of the coarse model — the
-registered, live, re-subscribed connection has its open session in the session map with all its
-topics routed, and no `Session.close()` hit a closed session. -/
+/-- **origin_queue_sound.** In every reachable state (current code and proposed repair): the ghost queue
+lists exactly the events in flight; the counter of the proposed repair never exceeds the number of queued
+teardown-origin events (and is 0 in the current code); the connection whose teardown emitted a queued event
+has ended (it is past its read loop or disconnected); and the base state still satisfies the invariant of
+the coarse model — the registered, live, re-subscribed connection has its open session in the session map
+with all its topics routed, and no `Session.close()` hit a closed session. -/
 theorem origin_queue_sound {fixed : Bool} {s : OSt} (r : OReach fixed s) :
     s.origins.length = s.base.watch ∧ s.own ≤ countT s.origins ∧ (fixed = false → s.own = 0) ∧
     (∀ j, Origin.teardownOf j ∈ s.origins → ended s.base j) ∧
@@ -870,10 +877,11 @@ def staleReconnect : List Act :=
   [.connectLocked 0 true, .storeSess 0, .resubscribe 0, .noticeEnd 0, .cleanup 0, .close 0, .remove 0,
    .connectLocked 1 true, .storeSess 1, .resubscribe 1, .subscribe 1 7, .watchFires]
 
-/-- **The code before `C16-own-delete-event.patch` violates the property** (witness; every step of both
-runs is enabled): the event that fires last was emitted by connection 0's own teardown
-(`teardownOf 0`), connection 1 is registered, live and in its read loop — and the event disconnects and
-unregisters connection 1. -/
+/-- **The current code violates the property** (witness; every step of both runs is enabled): the event that
+fires last was emitted by connection 0's own teardown (`teardownOf 0`), connection 1 is registered, live and
+in its read loop — and the event disconnects and unregisters connection 1. Known finding
+`C16-own-delete-event`, judge sig `stale-teardown-event:new-connection-disconnected`. This is the negation
+witness of the unconditional form of `teardown_event_never_disconnects_partial`. -/
 theorem stale_teardown_event_disconnects_new_connection :
     (∀ l ∈ [staleTakeover, staleReconnect],
       ((orunAll false oinit l.dropLast).map (fun s =>
@@ -882,108 +890,100 @@ theorem stale_teardown_event_disconnects_new_connection :
       ((orunAll false oinit l).map (fun s =>
         decide (s.base.client = none ∧ (s.base.conn 1).disc = true))) = some true) := by decide
 
-/-- the same two histories on the repaired code: every step is enabled, the event is dropped,
-connection 1 stays registered and live with its session and its subscription -/
-theorem repaired_ignores_stale_teardown_event :
-    (∀ l ∈ [staleTakeover, staleReconnect],
-      ((orunAll true oinit l).map (fun s =>
-        decide (s.base.client = some 1 ∧ (s.base.conn 1).disc = false ∧ s.base.sessMap = some (s.base.conn 1).sess ∧
-          s.base.topicMgr = [7] ∧ s.base.watch = 0 ∧ s.origins = [] ∧ s.own = 0))) = some true) := by decide
+/-- a **stale delivery**: the step delivers a teardown-origin delete event of connection `j` while ANOTHER
+connection is registered under the id — one that registered after `j`'s teardown emitted the event -/
+def staleDelivery (s : OSt) : Act → Bool
+  | .watchFires =>
+    match s.origins, s.base.client with
+    | Origin.teardownOf j :: _, some k => k != j
+    | _, _ => false
+  | _ => false
 
-/-- **expected_event_dropped.** While the repaired broker still expects the echo of an own delete
-(`own > 0`), the next delete event is dropped: registration, every connection record, session map,
-session objects, persisted copy and TopicManager are untouched; only the event is gone. -/
-theorem expected_event_dropped {s s' : OSt} (hown : 0 < s.own) (hs : ostep true s Act.watchFires = some s') :
-    s'.base.client = s.base.client ∧ s'.base.conn = s.base.conn ∧ s'.base.sessMap = s.base.sessMap ∧
-    s'.base.sess = s.base.sess ∧ s'.base.db = s.base.db ∧ s'.base.topicMgr = s.base.topicMgr ∧
-    s'.base.watch = s.base.watch - 1 ∧ s'.origins = s.origins.tail ∧ s'.own = s.own - 1 := by
-  rw [BrokerSessions.expected_event_dropped hown hs]
-  exact ⟨rfl, rfl, rfl, rfl, rfl, rfl, rfl, rfl, rfl⟩
+/-- histories of the CURRENT code in which no teardown-origin delete event is delivered after a later
+connection registered under the id -/
+inductive OReachNoStale : OSt → Prop
+  | init : OReachNoStale oinit
+  | step {s s' : OSt} (a : Act) : OReachNoStale s → staleDelivery s a = false → ostep false s a = some s' →
+      OReachNoStale s'
 
-/-- histories of the repaired code in which no admin-origin event is delivered while a
-teardown-origin event is queued behind it (`overtakes`) -/
-inductive OReachCalm : OSt → Prop
-  | init : OReachCalm oinit
-  | step {s s' : OSt} (a : Act) : OReachCalm s → overtakes s a = false → ostep true s a = some s' → OReachCalm s'
-
-theorem calm_reach {s : OSt} (r : OReachCalm s) : OReach true s := by
+theorem noStale_reach {s : OSt} (r : OReachNoStale s) : OReach false s := by
   induction r with
   | init => exact OReach.init
   | step a _ _ hs ih => exact OReach.step a ih hs
 
-/-- in such histories the bookkeeping is exact: the broker expects precisely the queued teardown-origin events -/
-theorem calm_exact {s : OSt} (r : OReachCalm s) : s.own = countT s.origins := by
-  induction r with
-  | init => rfl
-  | step a r0 hno hs ih => exact exact_step (oreach_inv (calm_reach r0)) ih hs hno
+/-- **teardown_event_never_disconnects_partial** — the CURRENT code, with the excluding hypothesis spelled
+out: the history (and the step at hand) delivers no teardown-origin delete event after a later connection
+registered under the id (`staleDelivery … = false`). Then the delivery of a teardown-origin event of
+connection `j` is harmless: `j` has ended (it is past its read loop, or disconnected); the session map, every
+session object, the persisted copy and the TopicManager are untouched; the record of every connection other
+than `j` is untouched and none of them is registered; and every connection that is registered, live and
+between registration and the end of its read loop (`alive`) before the step still is afterwards.
 
-/-- **teardown_event_never_disconnects** — the repaired code, every history without an overtaken
-admin event, every point of it. The delete event at the head of the queue was emitted by the
-teardown of connection `j`. Then its handling is enabled and changes NOTHING but the queue:
-whoever is registered by now — a connection that reconnected, or took the id over while `j`'s
-teardown was in progress — keeps its registration, its record (not disconnected), the session map
-entry, every session object, the persisted copy and the TopicManager entries.
+The unconditional statement is FALSE for the current code: `stale_teardown_event_disconnects_new_connection`
+(known finding `C16-own-delete-event`). -/
+theorem teardown_event_never_disconnects_partial {s s' : OSt} (r : OReachNoStale s) {j : Nat} {rest : List Origin}
+    (ho : s.origins = Origin.teardownOf j :: rest) (hno : staleDelivery s Act.watchFires = false)
+    (hs : ostep false s Act.watchFires = some s') :
+    ended s.base j ∧ s'.base.sessMap = s.base.sessMap ∧ s'.base.sess = s.base.sess ∧ s'.base.db = s.base.db ∧
+    s'.base.topicMgr = s.base.topicMgr ∧
+    (∀ k, k ≠ j → s'.base.conn k = s.base.conn k ∧ s.base.client ≠ some k) ∧
+    (∀ k, alive s.base k → alive s'.base k) := by
+  have hi := oreach_inv (noStale_reach r)
+  have hend : ended s.base j := hi.tdEnded j (by rw [ho]; simp)
+  have hcl : ∀ k, s.base.client = some k → k = j := by
+    intro k hk
+    simp only [staleDelivery, ho, hk, bne_eq_false_iff_eq] at hno
+    exact hno
+  obtain ⟨_, hc⟩ := watchFires_cases hs
+  rcases hc with ⟨hf, _, _⟩ | ⟨_, e⟩
+  · cases hf
+  · subst e
+    obtain ⟨h1, h2, h3, h4, _, h6⟩ := deleteSession_frame s.base
+    refine ⟨hend, h1, h2, h3, h4, ?_, ?_⟩
+    · intro k hk
+      have hnk : s.base.client ≠ some k := fun e => hk (hcl k e)
+      exact ⟨h6 k hnk, hnk⟩
+    · intro k ha
+      have : k = j := hcl k ha.1
+      subst this
+      exact absurd ha (not_alive_of_ended hend)
 
-Full statement (for EVERY reachable state of the repaired code) is FALSE:
-`repaired_residual_overtaken_admin_event` below; it is the known finding
-`C16-own-delete-echo-behind-admin-event`. -/
-theorem teardown_event_never_disconnects {s : OSt} (r : OReachCalm s) {j : Nat} {rest : List Origin}
-    (ho : s.origins = Origin.teardownOf j :: rest) :
-    ∃ s', ostep true s Act.watchFires = some s' ∧
-      s'.base.client = s.base.client ∧ s'.base.conn = s.base.conn ∧ s'.base.sessMap = s.base.sessMap ∧
-      s'.base.sess = s.base.sess ∧ s'.base.db = s.base.db ∧ s'.base.topicMgr = s.base.topicMgr ∧
-      s'.base.watch = s.base.watch - 1 ∧ s'.origins = rest := by
-  have hi := oreach_inv (calm_reach r)
-  have hen := watchFires_enabled hi (by rw [ho]; simp)
-  cases hs : ostep true s Act.watchFires with
-  | none => simp [hs] at hen
-  | some s' =>
-    have hown := exact_teardown_head (calm_exact r) ho
-    obtain ⟨h1, h2, h3, h4, h5, h6, h7, h8, _⟩ := expected_event_dropped hown hs
-    exact ⟨s', rfl, h1, h2, h3, h4, h5, h6, h7, by rw [h8, ho]; rfl⟩
+/-- **teardown_event_hits_alive_only_if_stale** — the current code, every reachable state: if the event at the
+head of the queue is a teardown-origin event of `j` and a connection `k` is registered, live and active, then
+`k ≠ j` — the delivery IS a stale one. So the stale delivery is the ONLY way the echo of a teardown can
+disconnect a live connection. -/
+theorem teardown_event_hits_alive_only_if_stale {fixed : Bool} {s : OSt} (r : OReach fixed s) {j k : Nat}
+    {rest : List Origin} (ho : s.origins = Origin.teardownOf j :: rest) (ha : alive s.base k) :
+    k ≠ j ∧ staleDelivery s Act.watchFires = true := by
+  have hend : ended s.base j := (oreach_inv r).tdEnded j (by rw [ho]; simp)
+  have hkj : k ≠ j := fun e => not_alive_of_ended hend (e ▸ ha)
+  refine ⟨hkj, ?_⟩
+  simp [staleDelivery, ho, ha.1, hkj]
 
-/-- the same for a single state, with the exactness of the bookkeeping as the excluding hypothesis -/
-theorem teardown_event_ignored_partial {s s' : OSt} (he : s.own = countT s.origins) {j : Nat} {rest : List Origin}
-    (ho : s.origins = Origin.teardownOf j :: rest) (hs : ostep true s Act.watchFires = some s') :
-    s'.base.client = s.base.client ∧ s'.base.conn = s.base.conn ∧ s'.base.sessMap = s.base.sessMap ∧
-    s'.own = countT s'.origins := by
-  have hown := exact_teardown_head he ho
-  obtain ⟨h1, h2, h3, _, _, _, _, h8, h9⟩ := expected_event_dropped hown hs
-  refine ⟨h1, h2, h3, ?_⟩
-  rw [h9, h8, ho, List.tail_cons, he, ho, countT_cons_teardown]; rfl
-
-/-- **admin_event_disconnects_victim** — "deleting a session through the admin endpoint disconnects
-that client", both codes, every reachable state. The delete event at the head of the queue stems from
-an admin delete issued while connection `v` was registered. After its handling `v` is not the
-registered live connection — whether the event was delivered (`deleteSession`) or, in the repaired
-code, taken for an expected echo and dropped (which happens only when a teardown-origin event is
-queued behind it; then `v` had already gone). -/
+/-- **admin_event_disconnects_victim** — "deleting a session through the admin endpoint disconnects that
+client", current code AND proposed repair, every reachable state. The delete event at the head of the queue
+stems from an admin delete issued while connection `v` was registered. After its handling `v` is not the
+registered live connection — in the current code because the event is delivered (`deleteSession`); in the
+proposed repair also when it is taken for an expected echo and dropped (which happens only when a
+teardown-origin event is queued behind it; then `v` had already gone). -/
 theorem admin_event_disconnects_victim {fixed : Bool} {s s' : OSt} (r : OReach fixed s) {v : Nat} {rest : List Origin}
     (ho : s.origins = Origin.admin (some v) :: rest) (hs : ostep fixed s Act.watchFires = some s') :
     ¬ (s'.base.client = some v ∧ (s'.base.conn v).disc = false ∧ (s'.base.conn v).pc.active = true) :=
   admin_event_victim_gone (oreach_inv r) ho hs
 
-/-- **admin_event_delivered** — in a history without an overtaken admin event (and always in the code
-before the patch) an admin-origin event with no teardown-origin event queued behind it is DELIVERED:
-whoever is registered is marked disconnected and unregistered (as `admin_delete_disconnects`). -/
-theorem admin_event_delivered {s s' : OSt} (r : OReachCalm s) {c : Option Nat} {rest : List Origin}
-    (ho : s.origins = Origin.admin c :: rest) (hq : countT rest = 0)
-    (hs : ostep true s Act.watchFires = some s') :
-    s'.base.client = none ∧ ∀ o, s.base.client = some o → (s'.base.conn o).disc = true := by
-  have he := calm_exact r
-  rw [ho, countT_cons_admin, hq] at he
-  exact delivered_event_disconnects (Or.inr he) hs
-
-theorem admin_event_delivered_unrepaired {s s' : OSt} (hs : ostep false s Act.watchFires = some s') :
+/-- **delete_event_delivered** — the current code: EVERY delete event, whatever its origin, runs
+`deleteSession`: whoever is registered is marked disconnected and unregistered (for an admin-origin event
+this is the clause "deleting a session through the admin endpoint disconnects that client", as
+`admin_delete_disconnects`; for a teardown-origin event it is the defect when the delivery is stale). -/
+theorem delete_event_delivered {s s' : OSt} (hs : ostep false s Act.watchFires = some s') :
     s'.base.client = none ∧ ∀ o, s.base.client = some o → (s'.base.conn o).disc = true :=
   delivered_event_disconnects (Or.inl rfl) hs
 
-/-- **teardown_event_own_connection_harmless** — the code before the patch (and a delivered event in
-general). The event at the head of the queue was emitted by connection `j`'s teardown; `j` has ended
-(it is past its read loop, or disconnected). `deleteSession` touches nothing but the registration and
-the registered connection's flags: session map, session objects, persisted copy, TopicManager and
-the record of every connection that is not the registered one stay. So when `j` itself is still the
-registered one (or nobody is), the event changes nothing that matters — the defect needs ANOTHER
+/-- **teardown_event_own_connection_harmless** — any delivered event (current code: every event). The event at
+the head of the queue was emitted by connection `j`'s teardown; `j` has ended. `deleteSession` touches nothing
+but the registration and the registered connection's flags: session map, session objects, persisted copy,
+TopicManager and the record of every connection that is not the registered one stay. So when `j` itself is
+still the registered one (or nobody is), the event changes nothing that matters — the defect needs ANOTHER
 connection to be registered by then. -/
 theorem teardown_event_own_connection_harmless {fixed : Bool} {s s' : OSt} (r : OReach fixed s) {j : Nat}
     {rest : List Origin} (ho : s.origins = Origin.teardownOf j :: rest)
@@ -999,19 +999,141 @@ theorem teardown_event_own_connection_harmless {fixed : Bool} {s s' : OSt} (r : 
     obtain ⟨h1, h2, h3, h4, _, h6⟩ := deleteSession_frame s.base
     exact ⟨h1, h2, h3, h4, h6⟩
 
-/-- the residual: connection 0 (clean session) is connected; an admin delete of the id is issued but its
-event is not yet delivered; connection 0 subscribes (the session is stored again) and ends (own `delDB`:
-the broker now expects ONE echo); connection 1 connects; the admin event arrives first and is taken for
-the echo; then the echo itself arrives, unexpected. -/
+/-! #### non-vacuity (current code) -/
+
+/-- all-or-nothing execution on the current code that also checks that no step is a stale delivery -/
+def orunNoStale : OSt → List Act → Option OSt
+  | s, [] => some s
+  | s, a :: rest => if staleDelivery s a then none else (ostep false s a).bind (fun s' => orunNoStale s' rest)
+
+theorem noStale_orunNoStale {s s' : OSt} {l : List Act} (r : OReachNoStale s) (h : orunNoStale s l = some s') :
+    OReachNoStale s' := by
+  induction l generalizing s with
+  | nil => simp [orunNoStale] at h; subst h; exact r
+  | cons a rest ih =>
+    simp only [orunNoStale] at h
+    cases ho : staleDelivery s a with
+    | true => simp [ho] at h
+    | false =>
+      simp only [ho, Bool.false_eq_true, if_false] at h
+      cases hs : ostep false s a with
+      | none => simp [hs] at h
+      | some s1 => simp [hs] at h; exact ih (OReachNoStale.step a r ho hs) h
+
+/-- `teardown_event_never_disconnects_partial` is not vacuous: a history of the current code without a stale
+delivery that ends with connection 0's teardown-origin event at the head of the queue, (a) while connection 0
+itself is still registered (`cleanup 0` done, `close 0` pending), (b) after connection 0 is completely gone
+and nobody is registered; in both the delivery is not stale and is enabled. And the two stale histories are
+rejected by `orunNoStale` exactly at their last step. -/
+example :
+    (∀ l ∈ [[Act.connectLocked 0 true, .storeSess 0, .resubscribe 0, .noticeEnd 0, .cleanup 0],
+            [Act.connectLocked 0 true, .storeSess 0, .resubscribe 0, .noticeEnd 0, .cleanup 0, .close 0, .remove 0]],
+      ((orunNoStale oinit l).map (fun s =>
+        decide (s.origins = [Origin.teardownOf 0]) && !staleDelivery s Act.watchFires &&
+          (ostep false s Act.watchFires).isSome)) = some true) ∧
+    (∀ l ∈ [staleTakeover, staleReconnect],
+      ((orunNoStale oinit l.dropLast).map (fun s => staleDelivery s Act.watchFires)) = some true ∧
+      (orunNoStale oinit l).isNone = true) := by decide
+
+example : OReachNoStale ((orunNoStale oinit staleTakeover.dropLast).getD oinit) := by
+  cases h : orunNoStale oinit staleTakeover.dropLast with
+  | none => exact OReachNoStale.init
+  | some s' => exact noStale_orunNoStale OReachNoStale.init h
+
+/-- `teardown_event_hits_alive_only_if_stale`: before the last step of `staleReconnect` connection 1 is alive
+and the head of the queue is `teardownOf 0`. `admin_event_disconnects_victim` / `delete_event_delivered`: an
+admin-origin event (victim: connection 0, registered and live) at the head of the queue. -/
+example :
+    ((orunAll false oinit staleReconnect.dropLast).map (fun s =>
+      decide (s.origins = [Origin.teardownOf 0] ∧ s.base.client = some 1 ∧ (s.base.conn 1).disc = false ∧
+        (s.base.conn 1).pc.active = true))) = some true ∧
+    ((orunAll false oinit [.connectLocked 0 false, .storeSess 0, .resubscribe 0, .adminDelete]).map (fun s =>
+      decide (s.origins = [Origin.admin (some 0)] ∧ s.base.client = some 0 ∧ (s.base.conn 0).disc = false))) = some true := by
+  decide
+
+/-! #### The PROPOSED repair `fixes/C16-own-delete-event.patch` (`ostep true`) — NOT applied to /repo
+
+The coordinator decided not to commit the patch (bookkeeping per client id, an extra `store.get` per clean
+teardown, the residual below, no help across cluster members). The judge and the harness check the CURRENT
+code; nothing below is tied to /repo. The theorems record what the counting repair would achieve. -/
+
+/-- *(proposed repair)* the two stale histories with the patch: every step is enabled, the event is dropped,
+connection 1 stays registered and live with its session and its subscription -/
+theorem repaired_ignores_stale_teardown_event :
+    (∀ l ∈ [staleTakeover, staleReconnect],
+      ((orunAll true oinit l).map (fun s =>
+        decide (s.base.client = some 1 ∧ (s.base.conn 1).disc = false ∧ s.base.sessMap = some (s.base.conn 1).sess ∧
+          s.base.topicMgr = [7] ∧ s.base.watch = 0 ∧ s.origins = [] ∧ s.own = 0))) = some true) := by decide
+
+/-- *(proposed repair)* **expected_event_dropped.** While the repaired broker still expects the echo of an own
+delete (`own > 0`), the next delete event is dropped: registration, every connection record, session map,
+session objects, persisted copy and TopicManager are untouched; only the event is gone. -/
+theorem expected_event_dropped {s s' : OSt} (hown : 0 < s.own) (hs : ostep true s Act.watchFires = some s') :
+    s'.base.client = s.base.client ∧ s'.base.conn = s.base.conn ∧ s'.base.sessMap = s.base.sessMap ∧
+    s'.base.sess = s.base.sess ∧ s'.base.db = s.base.db ∧ s'.base.topicMgr = s.base.topicMgr ∧
+    s'.base.watch = s.base.watch - 1 ∧ s'.origins = s.origins.tail ∧ s'.own = s.own - 1 := by
+  rw [BrokerSessions.expected_event_dropped hown hs]
+  exact ⟨rfl, rfl, rfl, rfl, rfl, rfl, rfl, rfl, rfl⟩
+
+/-- *(proposed repair)* histories in which no admin-origin event is delivered while a teardown-origin event is
+queued behind it (`overtakes`) -/
+inductive OReachCalm : OSt → Prop
+  | init : OReachCalm oinit
+  | step {s s' : OSt} (a : Act) : OReachCalm s → overtakes s a = false → ostep true s a = some s' → OReachCalm s'
+
+theorem calm_reach {s : OSt} (r : OReachCalm s) : OReach true s := by
+  induction r with
+  | init => exact OReach.init
+  | step a _ _ hs ih => exact OReach.step a ih hs
+
+/-- *(proposed repair)* in such histories the bookkeeping is exact -/
+theorem calm_exact {s : OSt} (r : OReachCalm s) : s.own = countT s.origins := by
+  induction r with
+  | init => rfl
+  | step a r0 hno hs ih => exact exact_step (oreach_inv (calm_reach r0)) ih hs hno
+
+/-- *(proposed repair)* **proposed_repair_ignores_teardown_events** — every history without an overtaken admin
+event, every point of it: the handling of a teardown-origin event at the head of the queue is enabled and
+changes NOTHING but the queue — whoever is registered by now keeps registration, record, session map entry,
+session objects, persisted copy and TopicManager entries. For EVERY reachable state of the repaired code
+the statement is false (`repaired_residual_overtaken_admin_event`): one of the coordinator's reasons. -/
+theorem proposed_repair_ignores_teardown_events {s : OSt} (r : OReachCalm s) {j : Nat} {rest : List Origin}
+    (ho : s.origins = Origin.teardownOf j :: rest) :
+    ∃ s', ostep true s Act.watchFires = some s' ∧
+      s'.base.client = s.base.client ∧ s'.base.conn = s.base.conn ∧ s'.base.sessMap = s.base.sessMap ∧
+      s'.base.sess = s.base.sess ∧ s'.base.db = s.base.db ∧ s'.base.topicMgr = s.base.topicMgr ∧
+      s'.base.watch = s.base.watch - 1 ∧ s'.origins = rest := by
+  have hi := oreach_inv (calm_reach r)
+  have hen := watchFires_enabled hi (by rw [ho]; simp)
+  cases hs : ostep true s Act.watchFires with
+  | none => simp [hs] at hen
+  | some s' =>
+    have hown := exact_teardown_head (calm_exact r) ho
+    obtain ⟨h1, h2, h3, h4, h5, h6, h7, h8, _⟩ := expected_event_dropped hown hs
+    exact ⟨s', rfl, h1, h2, h3, h4, h5, h6, h7, by rw [h8, ho]; rfl⟩
+
+/-- *(proposed repair)* an admin-origin event with no teardown-origin event queued behind it is delivered -/
+theorem proposed_repair_admin_event_delivered {s s' : OSt} (r : OReachCalm s) {c : Option Nat} {rest : List Origin}
+    (ho : s.origins = Origin.admin c :: rest) (hq : countT rest = 0)
+    (hs : ostep true s Act.watchFires = some s') :
+    s'.base.client = none ∧ ∀ o, s.base.client = some o → (s'.base.conn o).disc = true := by
+  have he := calm_exact r
+  rw [ho, countT_cons_admin, hq] at he
+  exact delivered_event_disconnects (Or.inr he) hs
+
+/-- the residual of the proposed repair: connection 0 (clean session) is connected; an admin delete of the id is
+issued but its event is not yet delivered; connection 0 subscribes (the session is stored again) and ends (own
+`delDB`: the broker now expects ONE echo); connection 1 connects; the admin event arrives first and is taken
+for the echo; then the echo itself arrives, unexpected. -/
 def residualRun : List Act :=
   [.connectLocked 0 true, .storeSess 0, .resubscribe 0, .adminDelete, .subscribe 0 7, .noticeEnd 0, .cleanup 0,
    .close 0, .remove 0, .connectLocked 1 true, .storeSess 1, .resubscribe 1, .watchFires, .watchFires]
 
-/-- **Residual of the repaired code** (witness, every step enabled): before the last step the queue
-holds only connection 0's teardown-origin event, the broker expects nothing (`own = 0` — the admin
-event used the slot up), connection 1 is registered, live and in its read loop; the event is handled
-like a foreign delete and disconnects connection 1. The first `watchFires` of this run is the only
-`overtakes` step. Known finding `C16-own-delete-echo-behind-admin-event`. -/
+/-- *(proposed repair)* **its residual** (witness, every step enabled): before the last step the queue holds only
+connection 0's teardown-origin event, the broker expects nothing (`own = 0` — the admin event used the slot
+up), connection 1 is registered, live and in its read loop; the event is handled like a foreign delete and
+disconnects connection 1. Reproduced on the real broker with the patch applied
+(`connect 0 clean; admindel; sub 0 f; drop 0; connect 1 clean; watch; watch`). -/
 theorem repaired_residual_overtaken_admin_event :
     ((orunAll true oinit residualRun.dropLast).map (fun s =>
         decide (s.origins = [Origin.teardownOf 0] ∧ s.own = 0 ∧ s.base.client = some 1 ∧
@@ -1021,9 +1143,7 @@ theorem repaired_residual_overtaken_admin_event :
     ((orunAll true oinit (residualRun.take 12)).map (fun s => overtakes s Act.watchFires)) = some true := by
   decide
 
-/-! #### non-vacuity -/
-
-/-- all-or-nothing execution that also checks that no step overtakes -/
+/-- all-or-nothing execution of the proposed repair that also checks that no step overtakes -/
 def orunCalm : OSt → List Act → Option OSt
   | s, [] => some s
   | s, a :: rest => if overtakes s a then none else (ostep true s a).bind (fun s' => orunCalm s' rest)
@@ -1041,65 +1161,25 @@ theorem calm_orunCalm {s s' : OSt} {l : List Act} (r : OReachCalm s) (h : orunCa
       | none => simp [hs] at h
       | some s1 => simp [hs] at h; exact ih (OReachCalm.step a r ho hs) h
 
-/-- `teardown_event_never_disconnects` is not vacuous: both stale histories, up to the last step, are
-calm histories of the repaired code that end with connection 0's teardown-origin event at the head
-of the queue while connection 1 is registered, live and in its read loop. -/
-example : ∀ l ∈ [staleTakeover, staleReconnect],
-    ((orunCalm oinit l.dropLast).map (fun s =>
-      decide (s.origins = [Origin.teardownOf 0] ∧ s.own = 1 ∧ s.base.client = some 1 ∧
-        (s.base.conn 1).disc = false ∧ (s.base.conn 1).pc = Pc.running))) = some true := by decide
+/-- non-vacuity *(proposed repair)*: both stale histories, up to the last step, are calm histories that end with
+connection 0's teardown-origin event at the head of the queue while connection 1 is registered, live and in
+its read loop; the dropped-admin-event case of `admin_event_disconnects_victim` is met by `residualRun.take 12`;
+`delDB` with nothing stored emits nothing. -/
+example :
+    (∀ l ∈ [staleTakeover, staleReconnect],
+      ((orunCalm oinit l.dropLast).map (fun s =>
+        decide (s.origins = [Origin.teardownOf 0] ∧ s.own = 1 ∧ s.base.client = some 1 ∧
+          (s.base.conn 1).disc = false ∧ (s.base.conn 1).pc = Pc.running))) = some true) ∧
+    ((orunAll true oinit (residualRun.take 12)).map (fun s =>
+      decide (s.origins = [Origin.admin (some 0), Origin.teardownOf 0] ∧ s.own = 1 ∧ s.base.client = some 1))) = some true ∧
+    ((orunAll true oinit [.connectLocked 0 true, .storeSess 0, .resubscribe 0, .adminDelete, .watchFires,
+        .noticeEnd 0, .cleanup 0]).map (fun s => decide (s.origins = [] ∧ s.own = 0 ∧ s.base.watch = 0))) = some true := by
+  decide
 
 example : OReachCalm ((orunCalm oinit staleTakeover.dropLast).getD oinit) := by
   cases h : orunCalm oinit staleTakeover.dropLast with
   | none => exact OReachCalm.init
   | some s' => exact calm_orunCalm OReachCalm.init h
-
-/-- `admin_event_disconnects_victim` / `admin_event_delivered`: a calm history with an admin-origin event
-(victim: connection 0, registered and live) at the head of the queue; and the dropped-admin-event case of
-`admin_event_disconnects_victim` is met by `residualRun.take 12` (head `admin (some 0)`, `own = 1`). -/
-example :
-    ((orunCalm oinit [.connectLocked 0 false, .storeSess 0, .resubscribe 0, .adminDelete]).map (fun s =>
-      decide (s.origins = [Origin.admin (some 0)] ∧ s.base.client = some 0 ∧ (s.base.conn 0).disc = false))) = some true ∧
-    ((orunAll true oinit (residualRun.take 12)).map (fun s =>
-      decide (s.origins = [Origin.admin (some 0), Origin.teardownOf 0] ∧ s.own = 1 ∧ s.base.client = some 1))) = some true := by
-  decide
-
-/-- `teardown_event_own_connection_harmless` with `j` itself still registered: the event fires between
-`cleanup 0` and `close 0` (code before the patch). -/
-example :
-    ((orunAll false oinit [.connectLocked 0 true, .storeSess 0, .resubscribe 0, .noticeEnd 0, .cleanup 0]).map (fun s =>
-      decide (s.origins = [Origin.teardownOf 0] ∧ s.base.client = some 0))) = some true := by decide
-
-/-- `delDB` of the repaired code with nothing stored (after an admin delete): no delete, no event, nothing expected -/
-example :
-    ((orunAll true oinit [.connectLocked 0 true, .storeSess 0, .resubscribe 0, .adminDelete, .watchFires,
-        .noticeEnd 0, .cleanup 0]).map (fun s => decide (s.origins = [] ∧ s.own = 0 ∧ s.base.watch = 0))) = some true := by
-  decide
-
-
-/-- **own_delete_facts** — the source facts the origin model assumes about
-`fixes/C16-own-delete-event.patch`, regenerated on every run (`Gen/FactsC16Locks`, control-flow order):
-`delDB` looks the key up first, announces the own delete (`addOwnDelete`) BEFORE `store.delete` and
-retracts it after it; `watchDelete` consults `takeOwnDelete` before it starts `deleteSession`;
-`reconnectWatcher` forgets the expected echoes after the new watch exists and before the new
-`watchDelete` loop runs; the admin endpoint only deletes (it does not announce an own delete);
-`addOwnDelete` / `takeOwnDelete` touch nothing but the counter map. -/
-theorem own_delete_facts :
-    Gen.FactsC16Locks.extractionFailed = false ∧
-    Gen.FactsC16Locks.sessMgrDelDBEvents =
-      [("", "storage.get"), ("", "SessionManager.addOwnDelete"), ("", "storage.delete"),
-       ("", "SessionManager.addOwnDelete")] ∧
-    Gen.FactsC16Locks.watchDeleteEvents =
-      [("", "Broker.done.recv"), ("", "go Broker.reconnectWatcher"), ("", "SessionManager.takeOwnDelete"),
-       ("", "go Broker.deleteSession")] ∧
-    evBefore Gen.FactsC16Locks.reconnectWatcherEvents ("", "storage.watchDelete") ("", "SessionManager.resetOwnDeletes") = true ∧
-    evBefore Gen.FactsC16Locks.reconnectWatcherEvents ("", "SessionManager.resetOwnDeletes") ("", "go Broker.watchDelete") = true ∧
-    Gen.FactsC16Locks.httpDeleteSessionHandlerRegions = [("", ["storage.delete"])] ∧
-    Gen.FactsC16Locks.sessMgrAddOwnDeleteRegions =
-      [("", ["SessionManager.ownDeletes.delete", "SessionManager.ownDeletes.load", "SessionManager.ownDeletes.store"])] ∧
-    Gen.FactsC16Locks.sessMgrTakeOwnDeleteRegions =
-      [("", ["SessionManager.ownDeletes.delete", "SessionManager.ownDeletes.load", "SessionManager.ownDeletes.store"])] := by
-  decide
 
 /-! #### AUDIT P2 item 17 (C16): acceptance of the changed spec clause, fine `clean_discards`, the hypothesis of `reconnect_restores` -/
 
@@ -1107,117 +1187,61 @@ theorem own_delete_facts :
 def Quiescent (s : St) : Prop :=
   ∀ k, s.client = some k → (s.conn k).disc = false → (s.conn k).pc = Pc.running
 
-theorem project_watch (b : St) (w : Nat) : project { b with watch := w } = { project b with watch := w } := rfl
-
-/-- **violation_accepts_model_partial** — the executable spec accepts the model's own behaviour, for the
-clause this round changed (the delivery of a delete event; the acceptance of the other macro actions —
-connect / sub / unsub / drop / par — is NOT proved: it needs the macro-level invariant and every
-interleaving of `par`). `s` is any reachable state of the repaired model that is quiescent (between two
-macro actions) and whose snapshot is `intact`; the oldest queued event is handled (`watch`), `o` is its
-origin as the judge tracks it (`Track.head`), `ov` the judge's `Track.overtaken` flag. Then
-`Spec.violation` accepts the step, and the origin clause `watchViolation` accepts it too — except in
-exactly one case, which it classifies by the sig of the known finding: a teardown-origin event that the
-broker no longer expects (`own = 0`, the slot was used up by an admin event delivered ahead of it) while
-another connection is registered and live. -/
-theorem violation_accepts_model_partial {s s' : OSt} (r : OReach true s)
-    (hs : ostep true s Act.watchFires = some s') (hq : Quiescent s.base) (hint : intact (project s.base) = true)
-    (ov : Bool) (hov : s.own = 0 → ov = true) :
+/-- **violation_accepts_model_partial** — the executable spec accepts the model's own behaviour (the model of the
+CURRENT code, `ostep false`, which the judge replays), for the clause this round changed: the delivery of a
+delete event. (The acceptance of the other macro actions — connect / sub / unsub / drop / par — is NOT
+proved: it needs the macro-level invariant and every interleaving of `par`.) `s` is any reachable state; the
+oldest queued event is handled (`watch`); `s.origins.head?` is its origin, as the judge tracks it
+(`Track.head`). Then `Spec.violation` accepts the step, and the origin clause `watchViolation` accepts it too
+— except in exactly one case, which it reports with the sig of the known finding `C16-own-delete-event`: a
+STALE delivery (`staleDelivery`: a teardown-origin event of `j` while another connection is registered) that
+hits a connection which is not already disconnected. -/
+theorem violation_accepts_model_partial {s s' : OSt} (hs : ostep false s Act.watchFires = some s') :
     violation (project s.base) MAct.watch false (project s'.base) = none ∧
-    (watchViolation s.origins.head? ov (project s.base) (project s'.base) = none ∨
-      (s.own = 0 ∧ (∃ j rest, s.origins = Origin.teardownOf j :: rest) ∧
-        watchViolation s.origins.head? ov (project s.base) (project s'.base) =
-          some "stale-teardown-event:after-overtaken-admin-event")) := by
-  have hi := oreach_inv r
-  obtain ⟨hpos, hc⟩ := watchFires_cases hs
-  rcases hc with ⟨_, hown, e⟩ | ⟨hz, e⟩
-  · -- the event is dropped: the snapshot changes in `watch` only
-    subst e
-    have hn : project ({ s.base with watch := s.base.watch - 1 } : St) = { project s.base with watch := s.base.watch - 1 } := rfl
-    simp only [hn]
-    constructor
-    · simp only [violation, Bool.false_eq_true, if_false]
-      have : intact { project s.base with watch := s.base.watch - 1 } = intact (project s.base) := rfl
-      simp [this, hint]
-    · left
-      cases ho : s.origins with
-      | nil => simp [watchViolation]
-      | cons o rest =>
-        cases o with
-        | teardownOf j =>
-          simp only [List.head?_cons, watchViolation]
-          cases hreg : (project s.base).reg with
-          | none => simp
-          | some k =>
-            have hw : (project s.base).watch = s.base.watch := rfl
-            have heq : ({ project s.base with watch := s.base.watch } : Snap) = project s.base := by
-              rw [← hw]
-            simp only [hreg] at heq ⊢
-            by_cases hk : (k != j && !(project s.base).regDisc) = true
-            · simp only [hk, if_true]
-              simp only [Bool.and_eq_true, Bool.not_eq_true'] at hk
-              rw [hk.2] at heq
-              simp [hk.2, hw, heq]
-            · simp [hk]
-        | admin c =>
-          cases c with
-          | none => simp [watchViolation]
-          | some v =>
-            simp only [List.head?_cons, watchViolation]
-            have hna := admin_event_victim_gone hi ho hs
-            have hcongr : ¬ alive s.base v := fun ha => hna ha
-            have : ¬ ((project s.base).reg = some v ∧ (project s.base).regDisc = false) := by
-              rintro ⟨h1, h2⟩
-              have hcl : s.base.client = some v := h1
-              have hd : (s.base.conn v).disc = false := by
-                simpa [project, hcl] using h2
-              exact hcongr ⟨hcl, hd, by rw [hq v hcl hd]; rfl⟩
-            by_cases h1 : (project s.base).reg = some v
-            · have h2 : (project s.base).regDisc = true := by
-                cases h3 : (project s.base).regDisc with
-                | true => rfl
-                | false => exact absurd ⟨h1, h3⟩ this
-              simp [h1, h2]
-            · simp [h1]
-  · -- the event is delivered: nobody is registered afterwards
-    subst e
+    (watchViolation s.origins.head? (project s.base) (project s'.base) = none ∨
+      (staleDelivery s Act.watchFires = true ∧
+        watchViolation s.origins.head? (project s.base) (project s'.base) =
+          some "stale-teardown-event:new-connection-disconnected")) := by
+  obtain ⟨_, hc⟩ := watchFires_cases hs
+  rcases hc with ⟨hf, _, _⟩ | ⟨_, e⟩
+  · cases hf
+  · subst e
     have hreg : (project ({ deleteSession s.base with watch := s.base.watch - 1 } : St)).reg = none := by
       show (deleteSession s.base).client = none
       cases hcl : s.base.client <;> simp [deleteSession, hcl]
-    have hown : s.own = 0 := by
-      rcases hz with hz | hz
-      · cases hz
-      · exact hz
     constructor
     · simp [violation, intact, hreg]
     · cases ho : s.origins with
       | nil => left; simp [watchViolation]
       | cons o rest =>
         cases o with
-        | admin c =>
-          left
-          cases c with
-          | none => simp [watchViolation]
-          | some v => simp [watchViolation, hreg]
+        | admin c => left; simp [watchViolation, hreg]
         | teardownOf j =>
-          simp only [List.head?_cons, watchViolation, hreg, hov hown, if_true]
-          cases hp : (project s.base).reg with
-          | none => left; rfl
+          simp only [List.head?_cons, watchViolation, hreg]
+          have hpr : (project s.base).reg = s.base.client := rfl
+          cases hp : s.base.client with
+          | none => left; simp [hpr, hp]
           | some k =>
-            simp only
+            simp only [hpr, hp]
             by_cases hk : (k != j && !(project s.base).regDisc) = true
             · right
-              refine ⟨hown, ⟨j, rest, rfl⟩, ?_⟩
-              simp [hk]
-            · left; simp [hk]
+              simp only [Bool.and_eq_true] at hk
+              refine ⟨by simp [staleDelivery, ho, hp, hk.1], ?_⟩
+              simp [hk.1, hk.2]
+            · left
+              have : (k != j && !(project s.base).regDisc && (none != some k || (project ({ deleteSession s.base with watch := s.base.watch - 1 } : St)).regDisc)) = false := by
+                simp only [Bool.not_eq_true] at hk; simp [hk]
+              simp [this]
 
-/-- non-vacuity of `violation_accepts_model_partial`: the state before the last step of `staleReconnect` on the
-repaired code is reachable, quiescent (connection 1 registered, live, in its read loop) and intact, with
-connection 0's teardown-origin event at the head of the queue and `own = 1`. -/
+/-- non-vacuity of `violation_accepts_model_partial`, both outcomes: before the last step of `staleReconnect` the
+head is connection 0's teardown-origin event and connection 1 is registered, live and in its read loop (the
+known-finding branch); after `connect 0; admindel` the head is an admin-origin event (accepted). -/
 example :
-    ((orunAll true oinit staleReconnect.dropLast).map (fun s =>
+    ((orunAll false oinit staleReconnect.dropLast).map (fun s =>
       decide (s.base.client = some 1 ∧ (s.base.conn 1).disc = false ∧ (s.base.conn 1).pc = Pc.running ∧
-        intact (project s.base) = true ∧ s.origins = [Origin.teardownOf 0] ∧ s.own = 1))) = some true := by decide
-
+        intact (project s.base) = true ∧ s.origins = [Origin.teardownOf 0]) && staleDelivery s Act.watchFires)) = some true ∧
+    ((orunAll false oinit [.connectLocked 0 false, .storeSess 0, .resubscribe 0, .adminDelete]).map (fun s =>
+      (ostep false s Act.watchFires).isSome && decide (s.origins = [Origin.admin (some 0)]))) = some true := by decide
 
 /-- **clean_discards_fine** — `clean_discards` at the fine granularity. The stored session of the id (local
 map, else the persisted copy) has topics `F` and clean flag `c`; connection `k` connects with
